@@ -125,11 +125,17 @@ Alter(r, f, m) ==
                        ELSE Meta(r.e.s, IF r.e.sum = <<>> THEN <<Bogus>> ELSE <<>>)]
 ValidAlt(r, f, m) == /\ f \in Fields
                      /\ (m = "alt2" => (f \in {"i", "t", "d"} \/ (f = "e" /\ r.e.k = "meta")))
+                     /\ (f = "w" => m = "alt1")
 Alts == {"alt1", "alt2"}
 
 (* what node n's store returns for index i *)
-Read(n, i) == LET r == RecAt(st[n], i) IN
-              IF rot.n = n /\ rot.i = i THEN Alter(r, rot.f, rot.m) ELSE r
+(* rot.f = "w" (whole records, at rest only): the store returns the records of rot.i and rot.i + 1 exchanged - every *)
+(* record is intact, only their order is not (a checksum that forgets the order of the entries misses it)          *)
+Read(n, i) == LET r == RecAt(st[n], i)
+                  sw == rot.n = n /\ rot.f = "w" /\ Has(st[n], rot.i) /\ Has(st[n], rot.i + 1)
+              IN IF sw /\ i = rot.i THEN RecAt(st[n], rot.i + 1)
+                 ELSE IF sw /\ i = rot.i + 1 THEN RecAt(st[n], rot.i)
+                 ELSE IF rot.n = n /\ rot.i = i /\ rot.f # "w" THEN Alter(r, rot.f, rot.m) ELSE r
 
 ----------------------------------------------------------------------------
 (* checksumLog *)
@@ -363,6 +369,7 @@ Restart(n) ==
 CorruptAtRest(n, i, f, m) ==
   /\ Room /\ AtRest /\ bud.cor < MaxCorrupt /\ rot.n = 0
   /\ Has(st[n], i) /\ ValidAlt(RecAt(st[n], i), f, m)
+  /\ (f = "w" => Has(st[n], i + 1))
   /\ mw[n].vs # "busy"
   /\ rot' = [n |-> n, i |-> i, f |-> f, m |-> m]
   /\ bud' = [bud EXCEPT !.cor = @ + 1]
@@ -439,7 +446,7 @@ BatchesNow == {<<x>> : x \in FirstKinds} \cup
               (IF MaxBatch >= 2 THEN {<<x, y>> : x \in FirstKinds, y \in LaterKinds} ELSE {}) \cup
               (IF MaxBatch >= 3 THEN {<<x, y, z>> : x \in FirstKinds, y \in LaterKinds, z \in LaterKinds} ELSE {})
 FailNow == IF bud.fail < MaxFail THEN BOOLEAN ELSE {FALSE}
-Cors == [p : 1..MaxBatch, f : Fields, m : Alts]
+Cors == [p : 1..MaxBatch, f : Fields \ {"w"}, m : Alts]
 CorsNow == {NoCor} \cup (IF InFlight /\ bud.cor < MaxCorrupt THEN Cors ELSE {})
 AtRestNow == IF AtRest /\ bud.cor < MaxCorrupt /\ rot.n = 0 THEN Fields ELSE {}
 
